@@ -14,7 +14,7 @@ if [ "${SKIP_SUITE:-0}" != 1 ]; then
   fails=$(cd "$tmp/r" && env -u GOFLAGS -u GOSUMDB -u GOTOOLCHAIN go test -vet=off -count=1 ./... 2>&1 | grep -c "^FAIL\|^--- FAIL")
   [ "$fails" -eq 0 ] || { echo "SUITE=fail($fails) $patch"; exit 3; }
 fi
-"$HERE/bin/hlcheck" -prop all -tier quick -repo "$tmp/r" -verif "$HERE" -no-evidence > "$tmp/all.out" 2>&1
+"${HLBIN:-$HERE/bin/hlcheck}" -prop all -tier quick -repo "$tmp/r" -verif "$HERE" -no-evidence > "$tmp/all.out" 2>&1
 alarms=0
 cur=""
 while IFS= read -r line; do
